@@ -23,6 +23,8 @@ type Loc struct {
 	Fld  string // field name (for "field")
 	Ref  string // object ref / slice base
 	Idx  string // absolute element index (for "elem")
+	Off  string // slice offset and
+	Rel  string // relative index (Idx == Off+Rel), when known: reads use the trigger-friendly slice view
 	T    types.Type
 }
 
